@@ -56,10 +56,47 @@ def _class_attrs(cls: ast.ClassDef) -> list[str]:
     return out
 
 
+def _stored_locals(fn: ast.FunctionDef) -> list[str]:
+    """Names bound in the function's own scope (not in nested functions / comprehensions), in order of first binding."""
+    out: list[str] = []
+    params = set(_params(fn))
+
+    def walk(node: ast.AST) -> None:
+        for child in ast.iter_child_nodes(node):
+            if isinstance(child, (*FuncNode, ast.ClassDef, ast.Lambda, ast.ListComp, ast.SetComp, ast.DictComp, ast.GeneratorExp)):
+                continue
+            if isinstance(child, ast.Name) and isinstance(child.ctx, ast.Store) and child.id not in out and child.id not in params:
+                out.append(child.id)
+            walk(child)
+    walk(fn)
+    return out
+
+
+def _first_defs(fn: ast.FunctionDef) -> dict[str, str]:
+    """local -> text of the right-hand side of its first plain assignment (used to recognise a renamed local by what it holds)."""
+    out: dict[str, str] = {}
+    for n in ast.walk(fn):
+        if isinstance(n, ast.Assign) and len(n.targets) == 1 and isinstance(n.targets[0], ast.Name) and n.targets[0].id not in out:
+            out[n.targets[0].id] = " ".join(ast.unparse(n.value).split())
+    return out
+
+
+def _functions_of(mod: Module):
+    for node in mod.tree.body:
+        if isinstance(node, FuncNode):
+            yield node.name, None, node
+        elif isinstance(node, ast.ClassDef):
+            for x in node.body:
+                if isinstance(x, FuncNode):
+                    suffix = ".setter" if any("setter" in ast.unparse(d) for d in x.decorator_list) else ""
+                    yield f"{node.name}.{x.name}{suffix}", node, x
+
+
 def inventory_of(mods: dict[str, Module]) -> dict:
     inv: dict = {"modules": {}}
     for name, mod in sorted(mods.items()):
-        m: dict = {"functions": {}, "classes": {}}
+        m: dict = {"functions": {}, "classes": {}, "locals": {q: _stored_locals(fn) for q, _, fn in _functions_of(mod)},
+                   "local_defs": {q: _first_defs(fn) for q, _, fn in _functions_of(mod)}}
         for node in mod.tree.body:
             if isinstance(node, FuncNode):
                 m["functions"][node.name] = _params(node)
@@ -216,13 +253,29 @@ def _simple(e: ast.expr) -> bool:
     return False
 
 
+def _clone(node):
+    """Structural copy of an AST (fields and positions only: the `_parent` back links must not be followed)."""
+    if isinstance(node, list):
+        return [_clone(x) for x in node]
+    if not isinstance(node, ast.AST):
+        return node
+    new = type(node)()
+    for f in node._fields:
+        if hasattr(node, f):
+            setattr(new, f, _clone(getattr(node, f)))
+    for a in ("lineno", "col_offset", "end_lineno", "end_col_offset"):
+        if hasattr(node, a):
+            setattr(new, a, getattr(node, a))
+    return new
+
+
 class _Subst(ast.NodeTransformer):
     def __init__(self, mapping: dict[str, ast.expr]) -> None:
         self.mapping = mapping
 
     def visit_Name(self, node: ast.Name):  # noqa: N802
         if node.id in self.mapping:
-            new = copy.deepcopy(self.mapping[node.id])
+            new = _clone(self.mapping[node.id])
             if isinstance(node.ctx, ast.Store):
                 if isinstance(new, ast.Name):
                     return ast.copy_location(ast.Name(id=new.id, ctx=ast.Store()), node)
@@ -337,12 +390,30 @@ class Inliner:
                         changed = True
             if not changed:
                 break
+        self._drop_unreferenced_helpers()
         for mod in self.mods.values():
             ast.fix_missing_locations(mod.tree)
             for node in ast.walk(mod.tree):
                 for child in ast.iter_child_nodes(node):
                     child._parent = node  # type: ignore[attr-defined]
             mod.tree._parent = None  # type: ignore[attr-defined]
+
+    def _drop_unreferenced_helpers(self) -> None:
+        """A new private helper whose every call was inlined is no longer part of the program the rules read."""
+        for (mname, cname, name), h in list(self.helpers.items()):
+            if not _private(name):
+                continue
+            refs = 0
+            for mod in self.mods.values():
+                for n in ast.walk(mod.tree):
+                    if (isinstance(n, ast.Attribute) and n.attr == name) or (isinstance(n, ast.Name) and n.id == name) or (isinstance(n, ast.alias) and n.name == name):
+                        if not any(x is n for x in ast.walk(h.node)):
+                            refs += 1
+            if refs == 0:
+                owner = h.cls.body if h.cls is not None else h.mod.tree.body
+                if h.node in owner and len(owner) > 1:
+                    owner.remove(h.node)
+                    self.log.append(f"{h.mod.relpath}: dropped fully inlined helper {name}()")
 
     def _functions(self, mod: Module):
         for node in mod.tree.body:
@@ -415,14 +486,21 @@ class Inliner:
                 mapping[p] = arg
             else:
                 fresh = f"{p}__{h.node.name.strip('_')}{uid}"
-                pre.append(ast.copy_location(ast.Assign(targets=[ast.Name(id=fresh, ctx=ast.Store())], value=copy.deepcopy(arg)), s))
+                pre.append(ast.copy_location(ast.Assign(targets=[ast.Name(id=fresh, ctx=ast.Store())], value=_clone(arg)), s))
                 mapping[p] = ast.Name(id=fresh, ctx=ast.Load())
+        # `t = helper(...)` with the helper ending in `return r` (a local): the local becomes the caller's target, no alias is left behind
+        direct_target: str | None = None
+        if isinstance(s, ast.Assign) and len(s.targets) == 1 and isinstance(s.targets[0], ast.Name) and isinstance(h.ret, ast.Name) and h.ret.id in h.locals() \
+                and h.ret.id not in b and not any(isinstance(n, ast.Name) and n.id == s.targets[0].id for a in b.values() for n in ast.walk(a)) \
+                and (s.targets[0].id == h.ret.id or s.targets[0].id not in h.locals()):
+            direct_target = s.targets[0].id
+            mapping[h.ret.id] = ast.Name(id=direct_target, ctx=ast.Load())
         for loc in h.locals():
             if loc in mapping:
                 continue
             if loc in caller_names:
                 mapping[loc] = ast.Name(id=f"{loc}__{h.node.name.strip('_')}{uid}", ctx=ast.Load())
-        body = [copy.deepcopy(x) for x in h.body]
+        body = [_clone(x) for x in h.body]
         sub = _Subst(mapping)
         body = [sub.visit(x) for x in body]
         for x in body:
@@ -436,7 +514,9 @@ class Inliner:
             value = ret_stmt.value if isinstance(ret_stmt, ast.Return) and ret_stmt.value is not None else ast.Constant(value=None)
         else:
             value = ast.Constant(value=None)
-        if isinstance(s, ast.Expr):
+        if direct_target is not None:
+            pass
+        elif isinstance(s, ast.Expr):
             if h.ret is not None and not isinstance(value, (ast.Name, ast.Constant)):
                 tail.append(ast.copy_location(ast.Expr(value=value), s))
         else:
@@ -474,7 +554,7 @@ class Inliner:
                     if stored or not (_simple(arg) or loads <= 1):
                         return node
                     mapping[p] = arg
-                expr = copy.deepcopy(h.ret)
+                expr = _clone(h.ret)
                 for st in reversed(h.body[:-1]):
                     expr = _Subst({st.targets[0].id: st.value}).visit(expr)  # type: ignore[union-attr]
                 expr = _Subst(mapping).visit(expr)
@@ -498,6 +578,262 @@ class Inliner:
         return hit
 
 
+# ---------------------------------------------------------------------------------------------------- locals
+def _pair_runs(old: list[str], new: list[str]) -> dict[str, str]:
+    """new local -> old local: both lists are in order of first binding; names common to both are anchors, and between two
+    anchors a run of removed names is paired with a run of added names of the same length, in order."""
+    import difflib
+    out: dict[str, str] = {}
+    sm = difflib.SequenceMatcher(a=old, b=new, autojunk=False)
+    for tag, i1, i2, j1, j2 in sm.get_opcodes():
+        if tag == "replace" and (i2 - i1) == (j2 - j1):
+            for o, n in zip(old[i1:i2], new[j1:j2]):
+                if o not in new and n not in old:
+                    out[n] = o
+    return out
+
+
+def align_locals(mods: dict[str, Module], inv: dict, log: list[str]) -> None:
+    for mod in mods.values():
+        old_m = inv["modules"].get(mod.name)
+        if old_m is None or "locals" not in old_m:
+            continue
+        for q, _, fn in _functions_of(mod):
+            old = old_m["locals"].get(q)
+            if old is None:
+                continue
+            new = _stored_locals(fn)
+            if old == new:
+                continue
+            ren = _pair_runs(old, new)
+            # a new local that holds exactly what a vanished local held is that local under another name
+            old_defs = old_m.get("local_defs", {}).get(q, {})
+            new_defs = _first_defs(fn)
+            for o in old:
+                if o in new or o in ren.values() or o not in old_defs:
+                    continue
+                cands = [n_ for n_ in new if n_ not in old and n_ not in ren and new_defs.get(n_) == old_defs[o]]
+                if len(cands) == 1:
+                    ren[cands[0]] = o
+            taken = {n.id for n in ast.walk(fn) if isinstance(n, ast.Name)} | set(_params(fn))
+            ren = {n: o for n, o in ren.items() if o not in taken}
+            if not ren:
+                continue
+            for n in ast.walk(fn):
+                if isinstance(n, ast.Name) and n.id in ren:
+                    n.id = ren[n.id]
+            log.append(f"{mod.relpath} {q}: locals renamed back {ren}")
+
+
+PURE_FUNCS = {"len", "type", "str", "int", "float", "bool", "tuple", "range", "abs", "min", "max", "sum", "isinstance", "repr", "round", "sorted", "zip", "enumerate", "list", "dict", "set", "cast"}
+PURE_METHODS = {"copy", "reshape", "astype", "sum", "mean", "min", "max", "argmin", "argmax", "argsort", "tolist", "item", "transpose", "flatten", "squeeze", "get", "keys", "values", "items",
+                "index", "count", "startswith", "endswith", "format", "join", "strip", "split", "all", "any", "std", "var", "dot", "round", "clip", "nonzero", "view", "with_suffix", "exists"}
+IMPURE_NUMPY = {"put", "copyto", "place", "putmask", "fill", "shuffle", "seed", "save", "savetxt", "load"}
+
+
+def _pure(e: ast.AST) -> bool:
+    for n in ast.walk(e):
+        if isinstance(n, (ast.Yield, ast.YieldFrom, ast.Await, ast.NamedExpr)):
+            return False
+        if isinstance(n, ast.Call):
+            if any(k.arg == "out" for k in n.keywords):
+                return False
+            f = n.func
+            if isinstance(f, ast.Name):
+                if f.id not in PURE_FUNCS:
+                    return False
+            elif isinstance(f, ast.Attribute):
+                root = f
+                while isinstance(root, ast.Attribute):
+                    root = root.value
+                if isinstance(root, ast.Name) and root.id in ("np", "numpy", "math", "Path", "os"):
+                    d = ast.unparse(f)
+                    if ".random" in d or f.attr in IMPURE_NUMPY or root.id == "os" and not d.startswith("os.path."):
+                        return False
+                elif f.attr not in PURE_METHODS:
+                    return False
+            else:
+                return False
+    return True
+
+
+def _reads(e: ast.AST) -> tuple[set[str], set[str]]:
+    names = {n.id for n in ast.walk(e) if isinstance(n, ast.Name) and isinstance(n.ctx, ast.Load)}
+    attrs = {n.attr for n in ast.walk(e) if isinstance(n, ast.Attribute)}
+    return names, attrs
+
+
+class _Forward:
+    """Forward substitution of locals that the reference tree does not have (`x = e` with `e` pure and not invalidated before the uses,
+    or impure but consumed once by the very next statement): undoes 'introduce a local variable'."""
+
+    def __init__(self, mods: dict[str, Module], inv: dict, log: list[str]) -> None:
+        self.mods, self.inv, self.log = mods, inv, log
+        # attributes written by each method name of the package (one level), to see through `self.m()` calls
+        self.method_stores: dict[str, set[str]] = {}
+        for mod in mods.values():
+            for node in ast.walk(mod.tree):
+                if isinstance(node, FuncNode):
+                    st = {n.attr for n in ast.walk(node) if isinstance(n, ast.Attribute) and isinstance(n.ctx, ast.Store)}
+                    self.method_stores.setdefault(node.name, set()).update(st)
+
+    def run(self) -> None:
+        for mod in self.mods.values():
+            old_m = self.inv["modules"].get(mod.name)
+            if old_m is None or "locals" not in old_m:
+                continue
+            for q, _, fn in _functions_of(mod):
+                old = old_m["locals"].get(q)
+                if old is None:
+                    continue
+                for _ in range(6):
+                    new = [x for x in _stored_locals(fn) if x not in old]
+                    if not new or not any(self._try(mod, q, fn, x) for x in new):
+                        break
+
+    def _blocks(self, node: ast.AST):
+        for fld in ("body", "orelse", "finalbody"):
+            b = getattr(node, fld, None)
+            if isinstance(b, list) and b and isinstance(b[0], ast.stmt):
+                yield b
+        if isinstance(node, ast.Try):
+            for h in node.handlers:
+                yield h.body
+        if isinstance(node, ast.Match):
+            for c in node.cases:
+                yield c.body
+
+    def _find_def(self, fn: ast.FunctionDef, name: str):
+        """(block, index) of the single `name = e` statement, or None."""
+        hits = []
+        stores = 0
+        for n in ast.walk(fn):
+            if isinstance(n, ast.Name) and n.id == name and isinstance(n.ctx, (ast.Store, ast.Del)):
+                stores += 1
+        if stores != 1:
+            return None
+        work = [fn]
+        while work:
+            node = work.pop()
+            for b in self._blocks(node):
+                for i, st in enumerate(b):
+                    if isinstance(st, ast.Assign) and len(st.targets) == 1 and isinstance(st.targets[0], ast.Name) and st.targets[0].id == name:
+                        hits.append((b, i))
+                    if not isinstance(st, (*FuncNode, ast.ClassDef)):
+                        work.append(st)
+        return hits[0] if len(hits) == 1 else None
+
+    def _kills(self, st: ast.stmt, names: set[str], attrs: set[str], skip_targets_of: ast.stmt | None = None) -> bool:
+        for n in ast.walk(st):
+            if isinstance(n, ast.Name) and isinstance(n.ctx, (ast.Store, ast.Del)) and n.id in names:
+                return True
+            if isinstance(n, ast.Attribute) and isinstance(n.ctx, (ast.Store, ast.Del)) and n.attr in attrs:
+                return True
+            if isinstance(n, ast.Subscript) and isinstance(n.ctx, (ast.Store, ast.Del)):
+                root = n.value
+                while isinstance(root, (ast.Subscript, ast.Attribute)):
+                    if isinstance(root, ast.Attribute) and root.attr in attrs:
+                        return True
+                    root = root.value
+                if isinstance(root, ast.Name) and root.id in names:
+                    return True
+            if isinstance(n, ast.AugAssign):
+                t = n.target
+                if isinstance(t, ast.Name) and t.id in names:
+                    return True
+            if isinstance(n, ast.Call) and isinstance(n.func, ast.Attribute):
+                if attrs & self.method_stores.get(n.func.attr, set()):
+                    return True
+                # in-place method on a read name
+                if n.func.attr in ("append", "extend", "sort", "fill", "update", "pop", "clear", "insert", "remove", "resize", "put") and isinstance(n.func.value, ast.Name) and n.func.value.id in names:
+                    return True
+        return False
+
+    @staticmethod
+    def _mutated(stmts: list[ast.stmt], name: str) -> bool:
+        """The object held by `name` may be modified in place (then every use must see the same object: no duplication)."""
+        for st in stmts:
+            for n in ast.walk(st):
+                if isinstance(n, (ast.Subscript, ast.Attribute)) and isinstance(n.ctx, (ast.Store, ast.Del)):
+                    root = n.value
+                    while isinstance(root, (ast.Subscript, ast.Attribute)):
+                        root = root.value
+                    if isinstance(root, ast.Name) and root.id == name:
+                        return True
+                if isinstance(n, ast.Call):
+                    if isinstance(n.func, ast.Attribute) and isinstance(n.func.value, ast.Name) and n.func.value.id == name and n.func.attr not in PURE_METHODS:
+                        return True
+                    if not _pure(n) and any(isinstance(a, ast.Name) and a.id == name for a in [*n.args, *[k.value for k in n.keywords]]):
+                        return True
+        return False
+
+    def _try(self, mod: Module, q: str, fn: ast.FunctionDef, name: str) -> bool:
+        found = self._find_def(fn, name)
+        if found is None:
+            return False
+        block, i = found
+        d = block[i]
+        e = d.value  # type: ignore[attr-defined]
+        loads = [n for n in ast.walk(fn) if isinstance(n, ast.Name) and n.id == name and isinstance(n.ctx, ast.Load)]
+        if not loads:
+            return False
+        # every use must lie in a later sibling of the definition (the definition dominates it)
+        later = block[i + 1:]
+        where: dict[int, int] = {}
+        for k, st in enumerate(later):
+            for n in ast.walk(st):
+                where[id(n)] = k
+        if any(id(n) not in where for n in loads):
+            return False
+        # uses inside nested functions / lambdas would capture the variable: leave those alone
+        for st in later:
+            for n in ast.walk(st):
+                if isinstance(n, (*FuncNode, ast.Lambda)) and any(isinstance(x, ast.Name) and x.id == name for x in ast.walk(n)):
+                    return False
+        last = max(where[id(n)] for n in loads)
+        if len(loads) > 1 and self._mutated(later, name):
+            return False
+        names, attrs = _reads(e)
+        names.discard(name)
+        if _pure(e) or isinstance(e, ast.GeneratorExp) and len(loads) == 1 and _pure(ast.Tuple(elts=[g.iter for g in e.generators][:1], ctx=ast.Load())):
+            if isinstance(e, ast.GeneratorExp) and len(loads) != 1:
+                return False
+            for k, st in enumerate(later[: last + 1]):
+                direct_use = k == last and not isinstance(st, (ast.For, ast.While))
+                if self._kills(st, names, attrs):
+                    # a statement that stores a read location *after* evaluating the use (its own target) is fine when it is the last user and not a loop
+                    if direct_use and isinstance(st, (ast.Assign, ast.AugAssign, ast.AnnAssign)) and not self._kills(ast.Expr(value=st.value), names, attrs) \
+                            and not any(isinstance(x, ast.Name) and x.id == name for t in (st.targets if isinstance(st, ast.Assign) else [st.target]) for x in ast.walk(t)):
+                        continue
+                    return False
+        else:
+            # impure: one use, in the very next statement, evaluated before any other impure call of that statement
+            if len(loads) != 1 or last != 0:
+                return False
+            use_stmt = later[0]
+            if isinstance(use_stmt, (ast.For, ast.While, ast.If, ast.With, ast.Try)):
+                return False
+            u = loads[0]
+            enclosing = set()
+            for n in ast.walk(use_stmt):
+                if isinstance(n, ast.Call) and any(x is u for x in ast.walk(n)):
+                    enclosing.add(id(n))
+            for n in ast.walk(use_stmt):
+                if isinstance(n, ast.Call) and id(n) not in enclosing and not _pure(n):
+                    return False
+            if any(isinstance(n, (ast.ListComp, ast.GeneratorExp, ast.SetComp, ast.DictComp, ast.Lambda)) and any(x is u for x in ast.walk(n)) for n in ast.walk(use_stmt)):
+                return False
+        sub = _Subst({name: e})
+        for k in range(last + 1):
+            later[k] = sub.visit(later[k])
+        block[i + 1:i + 1 + last + 1] = later[: last + 1]
+        del block[i]
+        if not block:
+            block.append(ast.copy_location(ast.Pass(), d))
+        self.log.append(f"{mod.relpath}:{d.lineno} {q}: new local `{name}` substituted into its {len(loads)} use(s)")
+        return True
+
+
 def canonicalise(mods: dict[str, Module]) -> dict:
     """Align names with the reference inventory and inline new helpers, in place. Returns a report for the evidence."""
     inv = load_inventory()
@@ -505,12 +841,21 @@ def canonicalise(mods: dict[str, Module]) -> dict:
         return {"inventory": "absent"}
     ren = compute_renames(mods, inv)
     apply_renames(mods, ren)
+    loc_log: list[str] = []
+    align_locals(mods, inv, loc_log)
     inl = Inliner(mods, inv)
     inl.run()
-    if ren:
+    fwd_log: list[str] = []
+    _Forward(mods, inv, fwd_log).run()
+    if ren or loc_log or fwd_log or inl.log:
         for mod in mods.values():
             ast.fix_missing_locations(mod.tree)
-    return {"renamed_back": {k: v for k, v in sorted(ren.items())}, "inlined": inl.log[:40], "new_helpers": sorted(f"{k[0]}:{(k[1] + '.') if k[1] else ''}{k[2]}" for k in inl.helpers)}
+            for node in ast.walk(mod.tree):
+                for child in ast.iter_child_nodes(node):
+                    child._parent = node  # type: ignore[attr-defined]
+            mod.tree._parent = None  # type: ignore[attr-defined]
+    return {"renamed_back": {k: v for k, v in sorted(ren.items())}, "locals": loc_log[:40], "inlined": inl.log[:40], "substituted": fwd_log[:60],
+            "new_helpers": sorted(f"{k[0]}:{(k[1] + '.') if k[1] else ''}{k[2]}" for k in inl.helpers)}
 
 
 def main() -> int:
